@@ -308,8 +308,10 @@ def contradicting(kind):
         for qt, (base, units) in _B1.items():
             db.AddUnitBase(qt, base + "-name", base)
             if kind == "B1":
+                # (B1 also resolves every unit to a default category of its own, one the shipped table does not have)
                 for u, (a, b) in units.items():
-                    db.AddUnit(qt, u + "-name", u, *_conv(a, b, 1.0, 0.0))
+                    db.AddUnit(qt, u + "-name", u, *_conv(a, b, 1.0, 0.0), default_category="b1 " + qt)
+                db.AddCategory("b1 " + qt, qt)
             db.AddCategory(qt, qt)
         db.AddCategory("depth", "length")
         _CONTRA[kind] = db
